@@ -213,6 +213,13 @@ class ReplaceClip(Unit):
             ctx.ensure("C09 step' = clip(step, 0, max_step - 1); nothing else changes", z3.And(ret.f["step"] == clip(v, P), ret.f["eps"] == gs.f["eps"], z3.BoolVal(ret.f["timings_eps"] is gs.f["timings_eps"])))
 
 
+def _replay_clip(self, label, clause, probes, model):
+    return {"kind": "pure", "which": "replace_eps", "probes": probes}
+
+
+ReplaceClip.replay = _replay_clip
+
+
 UNITS = [GraphApi("run"), GraphApi("step"), GraphApi("reset"), ApiLemma(), Rollout(), ReplaceClip("eps"), ReplaceClip("step")]
 
 
@@ -288,13 +295,13 @@ class RunSupervisor(Unit):
             st = Rec("StepState", dict(rng=z3.Const("c_rng1", Leaf), state=z3.Const("c_state1", Leaf), params=z3.Const("c_params1", Leaf), inputs={}, eps=gs.f["eps"], seq=z3.Int("c_seq1"), ts=z3.Real("c_ts1")), module=BASE, frozen=True)
             out = z3.Const("c_out1", Leaf)
         ctx.ensure("C09 the supervisor continues from the given / computed state with seq + 1 (so passing the supervisor's own result to step() equals letting step() run it)",
-                   z3.And(ret.f["seq"]["sup"] == st.f["seq"] + 1, ret.f["state"]["sup"] == st.f["state"], ret.f["rng"]["sup"] == st.f["rng"], ret.f["ts"]["sup"] == st.f["ts"], ret.f["params"]["sup"] == st.f["params"]), props=("C09", "C06"))
+                   z3.And(ret.f["seq"]["sup"] == st.f["seq"] + 1, ret.f["state"]["sup"] == st.f["state"], ret.f["rng"]["sup"] == st.f["rng"], ret.f["ts"]["sup"] == st.f["ts"], ret.f["params"]["sup"] == st.f["params"]), props=("C09", "C06", "C13"))
         b0, b1 = buf["sup"][0], ret.f["buffer"]["sup"][0]
         j = z3.Int("j!rs")
         m = PYMOD(seq, size)
         ctx.ensure("C08 the supervisor's output is written at slot seq(step-1) mod size; other slots unchanged",
-                   z3.And(z3.Select(b1.a, m) == out, z3.ForAll([j], z3.Implies(z3.And(0 <= j, j < size, j != m), z3.Select(b1.a, j) == z3.Select(b0.a, j)))), props=("C08", "C09"))
-        ctx.ensure("step counter and episode unchanged by run_supervisor", z3.And(ret.f["step"] == step, ret.f["eps"] == gs.f["eps"]), props=("C09",))
+                   z3.And(z3.Select(b1.a, m) == out, z3.ForAll([j], z3.Implies(z3.And(0 <= j, j < size, j != m), z3.Select(b1.a, j) == z3.Select(b0.a, j)))), props=("C08", "C09", "C13"))
+        ctx.ensure("step counter and episode unchanged by run_supervisor", z3.And(ret.f["step"] == step, ret.f["eps"] == gs.f["eps"]), props=("C09", "C13"))
         if cfg["record"] and cfg["rs"]["output"]:
             a0, a1 = steps.f["output"][0], ret.f["aux"]["record"].f["nodes"]["sup"].f["steps"].f["output"][0]
             ctx.ensure("C13 the supervisor's output is recorded in the row of the step it belongs to; other rows untouched",
